@@ -644,5 +644,6 @@ func main() {
 	fileScenarios(r)
 	fileHistoryScenarios(r)
 	archiveBackendScenarios(r)
+	concurrentFileHashScenarios(r)
 	r.Finish()
 }
